@@ -93,27 +93,44 @@ def s1(ck, an, concrete):
                      f"{c.name} uses the Treasury cut-off (expiry - 30d).replace(day=24) on the cycle {lit!r}: consecutive monthly contracts can share a last trading date, the chain is no longer strictly ordered",
                      construct=f"{c.name}.freq")
     fi = an.fa("FutureChain.__init__")
-    dr = [c for c in fi.calls_named("date_range")]
-    ok = any(any(k.arg == "freq" and ast.unparse(k.value) == "future_cls.freq" for k in c.keywords) and [ast.unparse(a) for a in c.args] == ["start", "end"] for c in dr)
+    # value ids: `start or X`, `X if not start else start` and `if not start: start = X` are one value
+    want = {"start": _spec(fi, "start or future_cls.exists_since"), "end": _spec(fi, "end or future_cls.exists_until")}
+    dr = []
+    for c in fi.calls_named("date_range"):
+        n = fi.cfg.node_of(c)
+        at = n.id if n is not None else None
+        dr.append(([fi.sym.canon(a_, at) for a_ in c.args], {k.arg: fi.sym.canon(k.value, at) for k in c.keywords}))
+    ok = any(kw.get("freq") == "future_cls.freq" and len(args) == 2 for args, kw in dr)
     ck.check(ok, "ARGFLOW", "S1.chain-uses-class-freq", fi.f.short, fi.f.loc, "chains are generated with pd.date_range(start, end, freq=future_cls.freq)", "chain generation does not use the class's freq", construct="pd.date_range(start, end, freq=future_cls.freq)")
-    for nm in ("start", "end"):
-        defs = [d for d in fi.rd.defs if d.var == nm and d.kind == "assign"]
+    for i, nm in enumerate(("start", "end")):
         attr = "exists_since" if nm == "start" else "exists_until"
-        ck.check(any(ast.unparse(d.value) == f"{nm} or future_cls.{attr}" for d in defs), "ARGFLOW", f"S1.span-default-{nm}", fi.f.short, fi.f.loc, f"the span {nm} defaults to the class's {attr}", f"{nm} default is not future_cls.{attr}",
+        got = [args[i] if len(args) > i else "?" for args, kw in dr]
+        ck.check(bool(got) and all(g == want[nm] for g in got), "ARGFLOW", f"S1.span-default-{nm}", fi.f.short, fi.f.loc, f"the span {nm} defaults to the class's {attr}", f"{nm} default is not future_cls.{attr}: the chain is generated from {got}",
                  construct=f"{nm} = {nm} or future_cls.{attr}")
 
 
 LISTING_CYCLE = {"ES": "QE-DEC", "NK": "QE-DEC", "VX": "ME", "ZQ": "QE-DEC", "ZT": "QE-DEC", "ZF": "QE-DEC", "ZN": "QE-DEC", "ZB": "QE-DEC"}
 
 
-def _positive_offset(e):
-    """timedelta(days=k) / BDay(k) / timedelta(k) with a positive literal."""
-    if isinstance(e, ast.Call):
-        fn = ast.unparse(e.func)
-        vals = [a for a in e.args] + [k.value for k in e.keywords if k.arg in ("days", "weeks", "hours", "n")]
-        if fn in ("timedelta", "datetime.timedelta", "BDay", "pd.offsets.BDay", "pd.Timedelta") and len(vals) == 1 and isinstance(vals[0], ast.Constant) and isinstance(vals[0].value, (int, float)) and vals[0].value > 0:
-            return True
-    return False
+_OFFSET = re.compile(r"^-(?:datetime\.)?(timedelta|BDay|pd\.offsets\.BDay|pd\.tseries\.offsets\.BDay|pd\.Timedelta)\((?:(days|n|weeks|hours)=)?(\d+(?:\.\d+)?)\)$")
+
+
+def _spec(fa, text, at=None):
+    return fa.sym.canon(ast.parse(text, mode="eval").body, fa.cfg.entry.id if at is None else at)
+
+
+def _offset(fa, exp: str):
+    """(kind, unit, amount) when the function's single returned value is `<exp> - <offset constructor>(<positive literal>)`, else None."""
+    r = returns_in(fa)
+    if len(r) != 1 or r[0].value is None:
+        return None
+    at = fa.node_of(r[0]).id
+    m = _OFFSET.match((fa.sym.ev(r[0].value, at) - specv(fa, exp)).key())
+    if not m or float(m.group(3)) <= 0:
+        return None
+    kind = "BDay" if "BDay" in m.group(1) else "timedelta"
+    unit = m.group(2) or ("n" if kind == "BDay" else "days")
+    return kind, unit, float(m.group(3))
 
 
 def s2(ck, an, concrete):
@@ -124,23 +141,22 @@ def s2(ck, an, concrete):
             continue
         seen.add(f.qual)
         fa = an.fa(f)
-        rets = returns_in(fa)
         exp = f.params[1]
+        got = ret_canons(fa)
         if f.cls.name == "_Treasury":
             ck.note("_Treasury._get_last_trading_date = (expiry - 30d).replace(day=24): strictly-before-expiry NOT decided (needs day-of-month ranges)")
-            v = ast.unparse(rets[0].value) if rets else "?"
-            ck.check(v == f"({exp} - timedelta(days=30)).replace(day=24)", "CONST", "S2.treasury-cutoff-shape", f.short, f.loc, "Treasury cut-off is the 24th of the month 30 days before the expiry (shape only; order vs expiry not decided)",
-                     f"Treasury cut-off is {v}", construct="return (expiry - timedelta(days=30)).replace(day=24)")
+            ck.check(got == [_spec(fa, f"({exp} - timedelta(days=30)).replace(day=24)")], "CONST", "S2.treasury-cutoff-shape", f.short, f.loc, "Treasury cut-off is the 24th of the month 30 days before the expiry (shape only; order vs expiry not decided)",
+                     f"Treasury cut-off is {got}", construct="return (expiry - timedelta(days=30)).replace(day=24)")
             continue
-        ok = len(rets) == 1 and isinstance(rets[0].value, ast.BinOp) and isinstance(rets[0].value.op, ast.Sub) and ast.unparse(rets[0].value.left) == exp and _positive_offset(rets[0].value.right)
-        ck.check(ok, "SIGN", "S2.cutoff-before-expiry", f.short, f.loc, f"last trading date = expiry - {ast.unparse(rets[0].value.right) if ok else ''} (a positive offset): strictly earlier than the expiry",
-                 f"{f.short} returns {ast.unparse(rets[0].value) if rets else '?'}: not `expiry - <positive literal offset>`", construct=f"{f.short} return")
-    want = {"ES": "timedelta(days=8)", "NK": "timedelta(days=14)", "VX": "BDay(2)"}
+        off = _offset(fa, exp)
+        ck.check(off is not None, "SIGN", "S2.cutoff-before-expiry", f.short, f.loc, f"last trading date = expiry - {off} (a positive offset): strictly earlier than the expiry",
+                 f"{f.short} returns {got}: not `expiry - <positive literal offset>`", construct=f"{f.short} return")
+    want = {"ES": ("timedelta", "days", 8.0), "NK": ("timedelta", "days", 14.0), "VX": ("BDay", "n", 2.0)}
     for name, w in want.items():
         f = an.prog.lookup_method(an.prog.cls(name), "_get_last_trading_date")
-        r = returns_in(an.fa(f))
-        got = ast.unparse(r[0].value.right) if r and isinstance(r[0].value, ast.BinOp) else "?"
-        ck.check(got == w, "CONST", f"S2.cutoff-constant-{name}", f.short, f.loc, f"{name} stops trading {w} before its expiry", f"{name} cut-off offset is {got}, specified {w}", construct=f"{name} cut-off")
+        got = ret_canons(an.fa(f))
+        off = _offset(an.fa(f), f.params[1])
+        ck.check(off == w, "CONST", f"S2.cutoff-constant-{name}", f.short, f.loc, f"{name} stops trading {w[0]}({w[2]:g}) before its expiry", f"{name} cut-off is {got}, specified expiry - {w[0]}({w[1]}={w[2]:g})", construct=f"{name} cut-off")
 
 
 def s3(ck, an, concrete):
@@ -155,22 +171,19 @@ def s3(ck, an, concrete):
         o, v = an.prog.lookup_class_attr(c, "month_codes")
         ck.check(o is fut, "MRO", "S3.month-codes-not-overridden", c.name, c.loc, f"{c.name} uses Future.month_codes", f"{c.name} overrides month_codes", construct=f"{c.name}.month_codes")
     fi = an.fa("Future.__init__")
-    st = assigns_to_attr(fi, "_symbol")
-    ok = False
-    if len(st) == 1 and isinstance(st[0], ast.Assign) and isinstance(st[0].value, ast.Call) and isinstance(st[0].value.func, ast.Attribute) and st[0].value.func.attr == "format":
-        fmt = st[0].value.func.value
-        kw = {k.arg: ast.unparse(k.value) for k in st[0].value.keywords}
-        ok = isinstance(fmt, ast.Constant) and fmt.value == "{symbol_short}{month_code}{year_code}" and kw == {"symbol_short": "self._symbol_short", "month_code": "self.month_codes[self.expiry.month]", "year_code": "self.expiry.strftime('%y')"}
-    elif len(st) == 1 and isinstance(st[0], ast.Assign) and isinstance(st[0].value, ast.JoinedStr):
-        parts = [ast.unparse(v.value) for v in st[0].value.values if isinstance(v, ast.FormattedValue)]
-        ok = parts == ["self._symbol_short", "self.month_codes[self.expiry.month]", "self.expiry.strftime('%y')"] and all(isinstance(v, ast.FormattedValue) for v in st[0].value.values)
-    ck.check(ok, "CONST", "S3.symbol-shape", fi.f.short, fi.f.loc, "symbol = class code + month code of the expiry month + two-digit expiry year", "the symbol is not built as code + month_codes[expiry.month] + strftime('%y')",
+
+    def stored(attr, text):
+        st = assigns_to_attr(fi, attr)
+        if len(st) != 1 or not isinstance(st[0], ast.Assign):
+            return False
+        at = fi.node_of(st[0]).id
+        return fi.sym.canon(st[0].value, at) == _spec(fi, text, at)
+    ck.check(stored("_symbol", "f\"{self._symbol_short}{self.month_codes[self.expiry.month]}{self.expiry.strftime('%y')}\""), "CONST", "S3.symbol-shape", fi.f.short, fi.f.loc,
+             "symbol = class code + month code of the expiry month + two-digit expiry year", "the symbol is not built as code + month_codes[expiry.month] + strftime('%y')",
              construct="self._symbol = '{symbol_short}{month_code}{year_code}'.format(...)")
-    ss = assigns_to_attr(fi, "_symbol_short")
-    ck.check(len(ss) == 1 and isinstance(ss[0], ast.Assign) and ast.unparse(ss[0].value) == "self.__class__.__name__", "CONST", "S3.symbol-code-is-class-name", fi.f.short, fi.f.loc, "the class code is the class name",
+    ck.check(stored("_symbol_short", "self.__class__.__name__") or stored("_symbol_short", "type(self).__name__"), "CONST", "S3.symbol-code-is-class-name", fi.f.short, fi.f.loc, "the class code is the class name",
              "the class code is not self.__class__.__name__", construct="self._symbol_short = self.__class__.__name__")
-    ex = assigns_to_attr(fi, "expiry")
-    ck.check(len(ex) == 1 and isinstance(ex[0], ast.Assign) and ast.unparse(ex[0].value) == "self._get_expiry_date(year, month)", "ARGFLOW", "S3.expiry-from-rule", fi.f.short, fi.f.loc, "expiry = _get_expiry_date(year, month)",
+    ck.check(stored("expiry", "self._get_expiry_date(year, month)"), "ARGFLOW", "S3.expiry-from-rule", fi.f.short, fi.f.loc, "expiry = _get_expiry_date(year, month)",
              "expiry is not _get_expiry_date(year, month)", construct="self.expiry = self._get_expiry_date(year, month)")
     fs = an.fa("Future.symbol")
     ck.check(ret_canons(fs) == ["self._symbol"], "ARGFLOW", "S3.symbol-property", fs.f.short, fs.f.loc, "Future.symbol returns the symbol built at construction", "Future.symbol does not return self._symbol", construct="return self._symbol")
@@ -183,7 +196,7 @@ def s3(ck, an, concrete):
         f = an.prog.cls(name).methods.get("_get_expiry_date")
         fa = an.fa(f)
         r = returns_in(fa)
-        got = []
+        got, cont = [], []
 
         def on_stmt(st, fw):
             if not isinstance(st, ast.Expr):
@@ -192,6 +205,8 @@ def s3(ck, an, concrete):
                 if isinstance(c, ast.Call) and isinstance(c.func, ast.Attribute) and c.func.attr == "append" and isinstance(c.func.value, ast.Subscript) and c.args:
                     lp = next((p for p in parents(c) if isinstance(p, ast.For)), None)
                     dv = lp.target.id if lp is not None and isinstance(lp.target, ast.Name) else "day"
+                    if isinstance(c.func.value.value, ast.Name):
+                        cont.append(c.func.value.value.id)
                     got.append((fw.canon(c.func.value.value), fw.canon(c.func.value.slice), fw.canon(c.args[0]),
                                 fw.canon(ast.parse(f"datetime(year, month, {dv}).strftime('%A')", mode="eval").body), fw.canon(ast.parse(f"datetime(year, month, {dv})", mode="eval").body)))
         fw = Forward(an, fa, on_stmt=on_stmt, call_effects=False).run()
@@ -202,11 +217,11 @@ def s3(ck, an, concrete):
         ok_app = len(got) == 1 and got[0][2] == got[0][4] and got[0][1] == got[0][3]
         ck.check(ok_it and ok_app, "CONST", f"S3.rule-enumerates-month-{name}", f.short, f.loc, "every day 1..monthrange(year, month) is grouped under its weekday name",
                  f"{name}: day enumeration is range {it}, grouping {got}", construct=f"{name}._get_expiry_date loop")
-        container = got[0][0] if got else "dates"
-        v = deref(fa, r[0].value)[0] if r else None
-        okr = isinstance(v, ast.Subscript) and const_value(v.slice) == idx and isinstance(v.value, ast.Subscript) and const_value(v.value.slice) == "Friday" and isinstance(v.value.value, ast.Name)
+        at = fa.node_of(r[0]).id if r else None
+        k = fa.sym.canon(r[0].value, at) if r else "?"
+        okr = len(r) == 1 and len(cont) == 1 and k == spec(fa, f"{cont[0]}['Friday'][{idx}]", at)
         ck.check(okr, "CONST", f"S3.rule-constant-{name}", f.short, f.loc, f"{name} expires on Friday number {idx + 1} of the month (index {idx} of the month's Fridays)",
-                 f"{name} expiry is {ast.unparse(v) if v is not None else '?'}", construct=f"return dates['Friday'][{idx}]")
+                 f"{name} expiry is {k}", construct=f"return dates['Friday'][{idx}]")
     f = an.prog.cls("VX").methods.get("_get_expiry_date")
     fa = an.fa(f)
     r = returns_in(fa)
